@@ -499,6 +499,15 @@ Section WithEnv.
     if is_rela then enc_fields e (rela_layout c) [wrap (xw c) offset; wrap (xw c) info; wrap (xw c) addend]
     else enc_fields e (rel_layout c) [wrap (xw c) offset; wrap (xw c) info].
 
+  (* the write inside set_entry: entry [index] of the data [p] of section header [s] *)
+  Definition rel_set_core (c : cls) (enc : endian) (s : section) (p : ptr) (index offset symbol type addend : N) : res ptr :=
+    let is_rela := sh_type s =? SHT_RELA in
+    let ent := enc_rel c enc is_rela offset (r_info c symbol type) addend in
+    match p with
+    | None => Fault NullDeref
+    | Some _ => wr p (wrap64 (index * sh_entsize s)) ent
+    end.
+
   (* set_entry( index, offset, symbol, type, addend ) *)
   Definition rel_set_entry (el : elfio) (relsec : N) (index offset symbol type addend : N) : res (elfio * bool) :=
     match get_sec el relsec with
@@ -511,13 +520,8 @@ Section WithEnv.
           let is_rela := sh_type s =? SHT_RELA in
           if negb (is_rel || is_rela) then Ok (el, true) else
           '(el1, p, s1) <- sec_data el relsec ;;
-          let ent := enc_rel c (el_enc el1) is_rela offset (r_info c symbol type) addend in
-          match p with
-          | None => Fault NullDeref
-          | Some _ =>
-              p1 <- wr p (wrap64 (index * sh_entsize s)) ent ;;
-              Ok (upd_sec el1 relsec (with_data s1 p1 (s_data_size s1)), true)
-          end
+          p1 <- rel_set_core c (el_enc el1) s p index offset symbol type addend ;;
+          Ok (upd_sec el1 relsec (with_data s1 p1 (s_data_size s1)), true)
     end.
 
   (* add_entry overloads: REL with info, RELA with info and addend *)
